@@ -16,6 +16,7 @@ CONSTANTS
   CrashSet <- AllNodes
   StopSet <- AllNodes
   Sync = FALSE
+  TrackAge = FALSE
 INVARIANTS TypeOK Converged LearnsLive ForgetsDead PeerForgotten PeerLearnt SelfListed PeriodRestored NoDuplicateAddr ChannelSane
 PROPERTIES CallbackIffChange NoResurrection
 ACTION_CONSTRAINT Dump
